@@ -186,7 +186,7 @@ J stats_json(double wall, uint64_t nontrivial, uint64_t distinct, uint64_t known
   J kc = J::obj();
   static const char* kn[] = {"?", "lock_load", "lock_cas", "lock_store", "field_load", "field_store", "spin", "qsbr_state_load",
                              "qsbr_state_rmw", "qsbr_orphan_load", "qsbr_orphan_rmw", "qsbr_orphan_link", "fake_load", "fake_store",
-                             "", "", "", "", "", "", "alloc", "free", "mutex_lock", "mutex_unlock", "op_boundary", "harness",
+                             "compiler_inserted_atomic_load", "compiler_inserted_atomic_store", "compiler_inserted_atomic_rmw", "", "", "", "alloc", "free", "mutex_lock", "mutex_unlock", "op_boundary", "harness",
                              "thread_start", "thread_end", "blocked"};
   for (int i = 1; i < 29; i++) if (kn[i][0] && st.kind_count[i]) kc.set(kn[i], st.kind_count[i]);
   j.set("hooks", kc);
